@@ -29,15 +29,22 @@ MaxSeq(s)   == IF Len(s) = 4 THEN Max2(Max2(s[1], s[2]), Max2(s[3], s[4])) ELSE 
 
 RECURSIVE DotFrom(_, _, _)
 DotFrom(u, v, k) == IF k > Len(u) THEN 0 ELSE u[k] * v[k] + DotFrom(u, v, k + 1)
+(* TLC represents [i \in S |-> e] lazily and re-evaluates e on every application; SubSeq
+   converts to an explicit tuple of evaluated entries.  Fv/FM "force" vectors/matrices so
+   that nested products do not recompute their operands (measured: 0.5 s -> 2 ms per 9x9
+   conjugation).                                                                       *)
+Fv(v)       == SubSeq(v, 1, Len(v))
+FM(M)       == LET r == [i \in 1..Len(M) |-> SubSeq(M[i], 1, Len(M[i]))] IN SubSeq(r, 1, Len(r))
+
 Dot(u, v)   == CASE Len(u) = 3 -> u[1]*v[1] + u[2]*v[2] + u[3]*v[3]
                  [] Len(u) = 4 -> u[1]*v[1] + u[2]*v[2] + u[3]*v[3] + u[4]*v[4]
                  [] Len(u) = 2 -> u[1]*v[1] + u[2]*v[2]
                  [] OTHER -> DotFrom(u, v, 1)
 NormSq(u)   == Dot(u, u)
-VAdd(u, v)  == [k \in 1..Len(u) |-> u[k] + v[k]]
-VSub(u, v)  == [k \in 1..Len(u) |-> u[k] - v[k]]
-VScale(s, u) == [k \in 1..Len(u) |-> s * u[k]]
-VNeg(u)     == [k \in 1..Len(u) |-> -u[k]]
+VAdd(u, v)  == Fv([k \in 1..Len(u) |-> u[k] + v[k]])
+VSub(u, v)  == Fv([k \in 1..Len(u) |-> u[k] - v[k]])
+VScale(s, u) == Fv([k \in 1..Len(u) |-> s * u[k]])
+VNeg(u)     == Fv([k \in 1..Len(u) |-> -u[k]])
 Cross(u, v) == << u[2]*v[3] - u[3]*v[2], u[3]*v[1] - u[1]*v[3], u[1]*v[2] - u[2]*v[1] >>
 Hat(v)      == << <<0, -v[3], v[2]>>, <<v[3], 0, -v[1]>>, <<-v[2], v[1], 0>> >>
 
@@ -45,25 +52,25 @@ Rows(A)     == Len(A)
 Cols(A)     == Len(A[1])
 RECURSIVE MMulEntry(_, _, _, _, _)
 MMulEntry(A, B, i, j, k) == IF k > Len(B) THEN 0 ELSE A[i][k] * B[k][j] + MMulEntry(A, B, i, j, k + 1)
-MMul(A, B)  == [i \in 1..Rows(A) |-> [j \in 1..Cols(B) |->
+MMul(A, B)  == FM([i \in 1..Rows(A) |-> [j \in 1..Cols(B) |->
                    CASE Len(B) = 3 -> A[i][1]*B[1][j] + A[i][2]*B[2][j] + A[i][3]*B[3][j]
                      [] Len(B) = 4 -> A[i][1]*B[1][j] + A[i][2]*B[2][j] + A[i][3]*B[3][j] + A[i][4]*B[4][j]
                      [] Len(B) = 2 -> A[i][1]*B[1][j] + A[i][2]*B[2][j]
-                     [] OTHER -> MMulEntry(A, B, i, j, 1)]]
-MVec(A, v)  == [i \in 1..Rows(A) |-> Dot(A[i], v)]
-MT(A)       == [j \in 1..Cols(A) |-> [i \in 1..Rows(A) |-> A[i][j]]]
-MAdd(A, B)  == [i \in 1..Rows(A) |-> [j \in 1..Cols(A) |-> A[i][j] + B[i][j]]]
-MSub(A, B)  == [i \in 1..Rows(A) |-> [j \in 1..Cols(A) |-> A[i][j] - B[i][j]]]
-MScale(s, A) == [i \in 1..Rows(A) |-> [j \in 1..Cols(A) |-> s * A[i][j]]]
-Ident(n)    == [i \in 1..n |-> [j \in 1..n |-> IF i = j THEN 1 ELSE 0]]
-Zeros(n, m) == [i \in 1..n |-> [j \in 1..m |-> 0]]
-Outer(u, v) == [i \in 1..Len(u) |-> [j \in 1..Len(v) |-> u[i] * v[j]]]
+                     [] OTHER -> MMulEntry(A, B, i, j, 1)]])
+MVec(A, v)  == Fv([i \in 1..Rows(A) |-> Dot(A[i], v)])
+MT(A)       == FM([j \in 1..Cols(A) |-> [i \in 1..Rows(A) |-> A[i][j]]])
+MAdd(A, B)  == FM([i \in 1..Rows(A) |-> [j \in 1..Cols(A) |-> A[i][j] + B[i][j]]])
+MSub(A, B)  == FM([i \in 1..Rows(A) |-> [j \in 1..Cols(A) |-> A[i][j] - B[i][j]]])
+MScale(s, A) == FM([i \in 1..Rows(A) |-> [j \in 1..Cols(A) |-> s * A[i][j]]])
+Ident(n)    == FM([i \in 1..n |-> [j \in 1..n |-> IF i = j THEN 1 ELSE 0]])
+Zeros(n, m) == FM([i \in 1..n |-> [j \in 1..m |-> 0]])
+Outer(u, v) == FM([i \in 1..Len(u) |-> [j \in 1..Len(v) |-> u[i] * v[j]]])
 Trace3(A)   == A[1][1] + A[2][2] + A[3][3]
 Det3(A)     == A[1][1]*(A[2][2]*A[3][3] - A[2][3]*A[3][2])
              - A[1][2]*(A[2][1]*A[3][3] - A[2][3]*A[3][1])
              + A[1][3]*(A[2][1]*A[3][2] - A[2][2]*A[3][1])
 (* block matrix from a matrix of blocks given as function (bi,bj) -> matrix; all blocks
    in block-row bi have the same number of rows                                          *)
-Block2(A, B, C, D) == [i \in 1..(Rows(A) + Rows(C)) |-> IF i <= Rows(A) THEN A[i] \o B[i]
-                                                          ELSE C[i - Rows(A)] \o D[i - Rows(A)]]
+Block2(A, B, C, D) == FM([i \in 1..(Rows(A) + Rows(C)) |-> IF i <= Rows(A) THEN A[i] \o B[i]
+                                                          ELSE C[i - Rows(A)] \o D[i - Rows(A)]])
 =============================================================================
